@@ -13,6 +13,7 @@ import ast
 import errno
 import itertools
 import os
+import re
 import signal as _signal
 
 from harness.common import extract
@@ -34,7 +35,7 @@ ASSUMPTIONS = [
     "a PID is not recycled within one clock tick (psutil's documented assumption): every spawn advances the model clock",
 ]
 MANIFEST = {
-    "level_text": "Machine-checked Lean 4 proof over a model of psutil's process-identity machinery (Process._init/_get_ident/create_time/is_running/_raise_if_pid_reused/_send_signal/setters + _pslinux boot_time/BOOT_TIME) and a simulated kernel: by induction over ALL histories of spawn/exit/reap/PID-reuse/tick/clock-step events and interleaved psutil calls, every effect in the log was delivered to the incarnation the asking object was built for, under exactly the object's PID, signals never to PID<=0 (C01_no_wrong_owner, C01_never_group), a call adds at most one effect carrying exactly the requested signal/values (C01_exact_args, signalMap_correct), a call through an object whose incarnation lost its PID raises NoSuchProcess(pid) and leaves the log unchanged (C01_recycled_raises_NSP), and a live incarnation is not refused (C01_live_signal_delivered). The proofs hold for the configuration extracted by the translator (cfg_good: guard before every effect, `_gone` test in _raise_if_pid_reused, BOOT_TIME written once); for the two defective configurations the counterexamples are proved (C01_gone_counterexample, C01_bootrewrite_counterexample). Tie: ast-extracted facts + differential run of real psutil.Process objects over a fake procfs with recording OS entry points.",
+    "level_text": "Machine-checked Lean 4 proof over a model of psutil's process-identity machinery (Process._init/_get_ident/create_time/is_running/_raise_if_pid_reused/_send_signal/setters + _pslinux boot_time/BOOT_TIME) and a simulated kernel: by induction over ALL histories of spawn/exit/reap/PID-reuse/tick/clock-step events and interleaved psutil calls, every effect in the log was delivered to the incarnation the asking object was built for, under exactly the object's PID, signals never to PID<=0 (C01_no_wrong_owner, C01_never_group), a call adds at most one effect carrying exactly the requested signal/values (C01_exact_args, signalMap_correct), a call through an object whose incarnation lost its PID raises NoSuchProcess(pid) and leaves the log unchanged (C01_recycled_raises_NSP), and a live incarnation is not refused (C01_live_signal_delivered). The object list of a history holds the objects built by Process(pid) and those built and yielded by process_iter() (cached handles of recycled PIDs included), with oneshot() entry/exit as explicit no-op calls. The proofs hold for the configuration extracted by the translator (cfg_good: guard before every effect, `_gone` test in _raise_if_pid_reused, BOOT_TIME written once); for the two defective configurations the counterexamples are proved (C01_gone_counterexample, C01_bootrewrite_counterexample). Tie: ast-extracted facts + differential run of real psutil.Process objects over a fake procfs with recording OS entry points.",
     "level_note": "Trusted: Lean kernel + {propext, Classical.choice, Quot.sound}; the translator; the correspondence harness; the simulated kernel/fake procfs; atomic calls (the inherent check-then-kill window is outside the model); exact arithmetic for create times; hypothesis btime != 0.",
     "technique": "Lean 4 invariant proof by induction over event histories (ghost incarnation ids) + translator-fed proof obligation + differential correspondence on generated and exhaustively enumerated short histories",
     "design_ref": "DESIGN.md §5 C01",
@@ -357,6 +358,60 @@ class SimKernel:
 KERNEL_OPS = ("spawn", "exit", "reap", "tick", "setbtime")
 
 
+class SimPs:
+    """Python twin of the identity part of `Psutil.C01.Ps` (good configuration) — used by the generators
+    only, to know which object indices exist at each point of a history (process_iter() creates objects
+    depending on its cache and on `_pids_reused`).  Never used as an oracle: a call through an index that
+    turns out not to exist is answered `badCall` on both sides."""
+
+    def __init__(self):
+        self.objs = []       # [pid, ghost, gone, reused]
+        self.pmap = {}       # pid -> object index
+        self.flagged = set()
+
+    def _new(self, k, pid):
+        if pid >= 0 and pid in k.procs:
+            self.objs.append([pid, k.procs[pid][0], False, False])
+            return True
+        return False
+
+    def _is_running(self, k, i):
+        o = self.objs[i]
+        if o[2] or o[3]:
+            return False
+        if o[0] not in k.procs:
+            o[2] = True
+            return False
+        if k.procs[o[0]][0] != o[1]:
+            o[2] = o[3] = True
+            self.flagged.add(o[0])
+            return False
+        return True
+
+    def apply(self, k, op):
+        kind = op["op"]
+        if kind == "new":
+            self._new(k, op["pid"])
+        elif kind == "process_iter":
+            for pid in [q for q in self.pmap if q not in k.procs]:
+                del self.pmap[pid]
+            evicted = set()
+            for pid in self.flagged:
+                if pid in self.pmap:
+                    del self.pmap[pid]
+                    evicted.add(pid)
+            self.flagged = set()
+            for pid in sorted(k.procs):
+                if pid not in self.pmap and pid not in evicted and self._new(k, pid):
+                    self.pmap[pid] = len(self.objs) - 1
+        elif kind in ("is_running", "signal", "setter", "ppid"):
+            i = op["i"]
+            if i < len(self.objs):
+                o = self.objs[i]
+                if kind == "is_running" or not o[3]:
+                    self._is_running(k, i)       # the other three run it through _raise_if_pid_reused()
+
+
 def stat_line(pid, start, zombie):
     # pid (comm) state ppid pgrp session tty_nr tpgid flags minflt cminflt majflt cmajflt utime stime
     # cutime cstime priority nice num_threads itrealvalue starttime vsize rss … (52 fields)
@@ -437,6 +492,7 @@ class Impl:
         self.fp.clear()
         self.kern = SimKernel(btime)
         self.objs = []
+        self.idx = {}        # id(Process object) -> index in self.objs (objects are kept alive by self.objs)
         self.cms = {}
         self.log = []
         self.render_stat()
@@ -466,6 +522,13 @@ class Impl:
             self.unpatch()
         return out, self.log[n0:]
 
+    def _handle(self, p):
+        i = self.idx.get(id(p))
+        if i is None:
+            self.objs.append(p)
+            i = self.idx[id(p)] = len(self.objs) - 1
+        return i
+
     def _obj(self, i):
         if i >= len(self.objs):
             raise BadCall()
@@ -479,8 +542,7 @@ class Impl:
             if k == "new":
                 self.cur = None
                 p = ps.Process(op["pid"])
-                self.objs.append(p)
-                return {"kind": "obj", "i": len(self.objs) - 1}
+                return {"kind": "obj", "i": self._handle(p)}
             if k == "is_running":
                 return {"kind": "bool", "v": bool(self._obj(op["i"]).is_running())}
             if k == "enter":
@@ -537,8 +599,21 @@ class Impl:
                 p = self._obj(op["i"])
                 return {"kind": "hash", "v": hash(p), "again": hash(p)}
             if k == "process_iter":
+                # the yielded objects are handles of the history: those that are new by identity are appended to
+                # the object list (in yield order), cached ones keep the index they already have
                 self.cur = None
-                return {"kind": "pids", "v": sorted(p.pid for p in ps.process_iter())}
+                return {"kind": "procs", "v": [[p.pid, self._handle(p)] for p in list(ps.process_iter())]}
+            if k == "status":
+                p = self._obj(op["i"])
+                txt, rep = str(p), repr(p)
+                m = re.search(r"status='([^']*)'", txt)
+                word = m.group(1) if m else "none"
+                if word not in ("terminated", "terminated + PID reused", "zombie", "none"):
+                    word = "alive"       # the kernel's state letter of whoever holds the PID (sleeping, running, …)
+                m2 = re.search(r"status='([^']*)'", rep)
+                if (m2.group(1) if m2 else "none") != (m.group(1) if m else "none"):
+                    return {"kind": "value", "v": "str and repr disagree"}
+                return {"kind": "status", "v": word}
         except BadCall:
             return {"kind": "exc", "exc": "badCall"}
         raise ValueError(op)
@@ -568,8 +643,8 @@ def same_out(im, mo):
         return mk == "nat" and close(im["v"], mo["v"])
     if ik == "hash":
         return mk == "ident" and im["v"] == im["again"]
-    if ik == "pids":
-        return mk == "pids" and im["v"] == sorted(mo["v"])
+    if ik == "procs":
+        return mk == "procs" and [list(x) for x in im["v"]] == [list(x) for x in mo["v"]]
     if ik == "exc":
         return mk == "exc" and im["exc"] == mo["exc"] and im.get("pid") == mo.get("pid")
     return im == mo
@@ -587,6 +662,22 @@ def spec_violation(op, im, effs, sp, prop):
         if k in ("is_running", "eq") and "bool" in sp:
             if im != {"kind": "bool", "v": sp["bool"]}:
                 return "%s must be %s for these incarnations" % (k, sp["bool"])
+        if k == "status" and "listed" in sp:
+            # (C02_status_terminated_sound / C02_status_listed; the converse — a stale handle nobody asked
+            # is_running() on shows the new owner's state — is false of the code: C02_status_stale_counterexample)
+            w = im.get("v") if im.get("kind") == "status" else None
+            if w is None:
+                return "str(p) raised or shows no status word"
+            if sp["listed"]:
+                want = "zombie" if sp.get("own_zombie") else "alive"
+                if w != want:
+                    return "str(p) shows %r while the object's own process is in the table (%s)" % (w, want)
+        if k == "process_iter" and "listed_pids" in sp and im.get("kind") == "procs":
+            ys = [x[0] for x in im["v"]]
+            if any(y not in sp["listed_pids"] for y in ys):
+                return "process_iter() yielded a PID that is not in the process table"
+            if ys != sorted(set(ys)):
+                return "process_iter() yielded a PID twice or out of order"
     if prop == "C01" or prop is None:
         if k == "new" and sp.get("exc") == "ValueError" and im != {"kind": "exc", "exc": "ValueError"}:
             return "negative pid must be rejected with ValueError"
@@ -617,13 +708,24 @@ def spec_violation(op, im, effs, sp, prop):
     return None
 
 
+FINDING_STR = "C02-str-stale-handle"
+
+
+def in_str_region(row):
+    """region of the known finding C02-str-stale-handle: str(p) of an object whose incarnation is gone shows
+    something else than 'terminated…' (the state of whoever holds the PID now)"""
+    o, im, _ie, _mo, _me, sp = row
+    return (o["op"] == "status" and sp.get("listed") is False and im.get("kind") == "status"
+            and not im["v"].startswith("terminated"))
+
+
 def run_histories(ctx, impl, hists, driver_file=None):
     """Execute histories on implementation and model. A history = {"btime": b, "ops": [...]}.
     Returns per history {"rows": [(op, impl_out, impl_eff, model_out, model_eff, spec)], "pairs": (impl, model, spec)}"""
     lines = []
     for h in hists:
         lines.append({"op": "reset", "btime": h["btime"]})
-        lines.extend(o for o in h["ops"] if o["op"] not in ONESHOT_OPS)
+        lines.extend(h["ops"])
         lines.append({"op": "pairs"})
     outs = ctx.driver(driver_file).batch(lines)
     res = []
@@ -633,18 +735,14 @@ def run_histories(ctx, impl, hists, driver_file=None):
         impl.reset(h["btime"])
         rows = []
         for o in h["ops"]:
-            if o["op"] in ONESHOT_OPS:
-                # model: identity (no output, no effect, no state change)
-                im, effs = impl.do(o)
-                if im.get("exc") == "badCall":
-                    im = {"kind": "unit"}
-                rows.append((o, im, [norm_eff(e) for e in effs], {"kind": "unit"}, [], {}))
-                continue
             m = outs[i]
             i += 1
             if "bad" in m:
                 raise RuntimeError("driver rejected %r: %s" % (o, m))
             im, effs = impl.do(o)
+            if o["op"] in ONESHOT_OPS and im.get("exc") == "badCall":
+                # model: `Call.oneshot` is the identity on every state (C02_oneshot_identity), whatever the index
+                im = {"kind": "unit"}
             rows.append((o, im, [norm_eff(e) for e in effs], m["model"]["out"], m["model"]["eff"], m["spec"]))
         pm = outs[i]
         i += 1
@@ -724,6 +822,7 @@ class Plan:
         self.rng = rng
         self.k = SimKernel(btime)
         self.ops = []
+        self.sp = SimPs()
         self.nobj = 0
         self.obj_pid = []
         self.btime0 = btime
@@ -733,10 +832,10 @@ class Plan:
         self.ops.append(op)
         if op["op"] in KERNEL_OPS:
             self.k.apply(op)
-        elif op["op"] == "new":
-            if op["pid"] >= 0 and op["pid"] in self.k.procs:
-                self.nobj += 1
-                self.obj_pid.append(op["pid"])
+        else:
+            self.sp.apply(self.k, op)
+            self.nobj = len(self.sp.objs)
+            self.obj_pid = [o[0] for o in self.sp.objs]
         return self
 
     def tick(self, hi=3):
@@ -781,10 +880,12 @@ class Plan:
             self.ev(op="is_running", i=i)
         elif r < 0.55:
             self.ev(op="ppid", i=i)
-        elif r < 0.7:
+        elif r < 0.65:
             self.ev(op="create_time", i=i)
-        elif r < 0.8:
+        elif r < 0.72:
             self.ev(op="hash", i=i)
+        elif r < 0.8:
+            self.ev(op="status", i=i)
         elif r < 0.9 and self.k.procs:
             # (an empty process table is impossible on a real system — the caller exists — and makes
             # psutil.pids() raise IndexError on `ret[0]`; not generated)
@@ -935,6 +1036,87 @@ def gen_history(rng, family, clk):
             P.ev(op="leave", i=0)
             P.effect_call(0)
         P.ev(op="is_running", i=0)
+    elif family == "iter_handles":
+        # seeded C02-1 and its neighbourhood: handles come from process_iter(); a stale handle on a recycled PID
+        # (built by Process(pid) or cached by an earlier sweep) flags the reuse; the next sweep evicts the cache
+        # entry — which may already belong to the NEW owner; every handle is then asked again
+        q = rng.choice([x for x in PIDS if x != p])
+        if rng.random() < 0.6:
+            P.ev(op="spawn", pid=q)                 # bystander
+        P.ev(op="spawn", pid=p)
+        first = rng.random()
+        if first < 0.5:
+            P.ev(op="new", pid=p)                   # stale handle built by hand
+        elif first < 0.85:
+            P.ev(op="process_iter")                 # stale handle sits in the cache
+        else:
+            P.ev(op="new", pid=p).ev(op="process_iter")
+        if rng.random() < 0.3:
+            P.ev(op="is_running", i=0)
+        if rng.random() < 0.3:
+            P.ev(op="exit", pid=p)
+        P.ev(op="reap", pid=p)
+        P.tick()
+        P.ev(op="spawn", pid=p)
+        if rng.random() < 0.2:
+            P.ev(op="exit", pid=p)                  # the new owner is a zombie
+        for _ in range(rng.randrange(1, 4)):
+            r = rng.random()
+            if r < 0.45:
+                P.ev(op="process_iter")
+            elif r < 0.75:
+                P.ev(op="is_running", i=rng.randrange(P.nobj))
+            elif r < 0.9:
+                P.effect_call(rng.randrange(P.nobj))
+            else:
+                P.ev(op="new", pid=p)
+        stale = [i for i, o in enumerate(P.sp.objs) if o[0] == p and o[1] == 0] or [0]
+        P.ev(op="is_running", i=rng.choice(stale)) if rng.random() < 0.8 else P.effect_call(rng.choice(stale))
+        for _ in range(rng.randrange(1, 4)):
+            P.ev(op="process_iter")
+            if rng.random() < 0.3:
+                P.query(rng.randrange(P.nobj))
+        if rng.random() < 0.5:
+            P.ev(op="new", pid=p)
+        for i in range(P.nobj):
+            P.ev(op="is_running", i=i)
+            r = rng.random()
+            if r < 0.35:
+                P.effect_call(i)
+            elif r < 0.6:
+                P.ev(op="status", i=i)
+        P.ev(op="eq", i=rng.randrange(P.nobj), j=P.nobj - 1)
+    elif family == "iter_mixed":
+        for q in PIDS[:rng.randrange(1, 4)]:
+            P.ev(op="spawn", pid=q)
+        for _ in range(rng.randrange(5, 22)):
+            r = rng.random()
+            q = rng.choice(PIDS)
+            if r < 0.1:
+                P.ev(op="spawn", pid=q)
+            elif r < 0.14:
+                P.ev(op="exit", pid=q)
+            elif r < 0.26:
+                P.ev(op="reap", pid=q).ev(op="spawn", pid=q) if rng.random() < 0.7 else P.ev(op="reap", pid=q)
+            elif r < 0.3:
+                P.ev(op="setbtime", b=step_btime(rng, P.k.btime))
+            elif r < 0.5 and P.k.procs:
+                P.ev(op="process_iter")
+            elif r < 0.56:
+                P.ev(op="new", pid=q)
+            elif P.nobj:
+                i = rng.randrange(P.nobj)
+                rr = rng.random()
+                if rr < 0.45:
+                    P.ev(op="is_running", i=i)
+                elif rr < 0.7:
+                    P.effect_call(i)
+                elif rr < 0.85:
+                    P.ev(op="status", i=i)
+                else:
+                    P.query(i)
+        for i in range(P.nobj):
+            P.ev(op="is_running", i=i)
     elif family == "btime0":
         # outside the hypothesis btime != 0: model correspondence only
         P = Plan(rng, 0, clk)
@@ -973,12 +1155,14 @@ def sprinkle_oneshot(rng, h):
         return h
     ops = h["ops"]
     k = SimKernel(1)
+    sp = SimPs()
     born = []                       # index in ops after which object j exists
     for n, o in enumerate(ops):
         if o["op"] in KERNEL_OPS:
             k.apply(o)
-        elif o["op"] == "new" and o["pid"] >= 0 and o["pid"] in k.procs:
-            born.append(n)
+        else:
+            sp.apply(k, o)
+            born.extend([n] * (len(sp.objs) - len(born)))
     if not born:
         return h
     j = rng.randrange(len(born))
@@ -991,24 +1175,22 @@ def sprinkle_oneshot(rng, h):
 
 
 FAMILIES = ["gone_path", "reuse_noquery", "reuse_zombie", "multi_recycle", "pid0", "clock_step", "coincidence",
-            "live", "mixed", "oneshot_reuse", "mixed", "btime0"]
+            "live", "mixed", "oneshot_reuse", "iter_handles", "iter_mixed", "mixed", "iter_handles", "btime0"]
 
 
 def well_indexed(combo):
     """every call that names an object names one that exists at that point (a call through a missing
     index never reaches psutil: the harness answers `badCall` itself)"""
     k = SimKernel(1)
-    nobj = 0
+    sp = SimPs()
     for o in combo:
         op = o["op"]
         if op in KERNEL_OPS:
             k.apply(o)
-        elif op == "new":
-            if o["pid"] in k.procs:
-                nobj += 1
         else:
-            if any(o.get(x, -1) >= nobj for x in ("i", "j")):
+            if any(o.get(x, -1) >= len(sp.objs) for x in ("i", "j")):
                 return False
+            sp.apply(k, o)
     return True
 
 
@@ -1063,6 +1245,40 @@ def exhaustive_oneshot(maxlen, btime=1000):
             yield {"btime": btime, "ops": head + [dict(o) for o in combo], "family": "exhaustive_oneshot", "hyp": True}
 
 
+def iter_on_empty_table(ops):
+    """process_iter() with an empty process table: impossible on a real system (the caller exists) and
+    psutil.pids() raises IndexError on `ret[0]` — not generated"""
+    k = SimKernel(1)
+    for o in ops:
+        if o["op"] in KERNEL_OPS:
+            k.apply(o)
+        elif o["op"] == "process_iter" and not k.procs:
+            return True
+    return False
+
+
+def exhaustive_iter(maxlen, btime=1000):
+    """all histories `spawn · Process · reap · spawn · w` (a stale handle 0 on a PID that has just been recycled),
+    |w| <= maxlen, over {process_iter(), is_running(0), is_running(1), reap, spawn, kill(1), ==(0,1)} in which every
+    call names an existing object: every interleaving of sweeps of process_iter() with the call that flags the
+    reuse and with further recyclings; handle 1 comes from process_iter() or not at all"""
+    p = 5
+    alphabet = [
+        {"op": "process_iter"}, {"op": "is_running", "i": 0}, {"op": "is_running", "i": 1},
+        {"op": "reap", "pid": p}, {"op": "spawn", "pid": p},
+        {"op": "signal", "i": 1, "m": "kill", "sig": 0}, {"op": "eq", "i": 0, "j": 1},
+    ]
+    head = [{"op": "spawn", "pid": p}, {"op": "new", "pid": p}, {"op": "reap", "pid": p}, {"op": "spawn", "pid": p}]
+    for n in range(1, maxlen + 1):
+        for combo in itertools.product(alphabet, repeat=n):
+            if not any(o["op"] == "process_iter" for o in combo):
+                continue
+            ops = head + [dict(o) for o in combo]
+            if not well_indexed(ops) or iter_on_empty_table(ops):
+                continue
+            yield {"btime": btime, "ops": ops, "family": "exhaustive_iter", "hyp": True}
+
+
 def features(h, result):
     """which clauses of the properties a history exercised"""
     f = set()
@@ -1086,13 +1302,29 @@ def features(h, result):
             f.add("eq_true" if sp["bool"] else "eq_false")
         if k == "new" and im.get("kind") == "exc":
             f.add("new_" + im["exc"])
+        if k == "process_iter" and im.get("kind") == "procs":
+            f.add("iter")
+            known = result.setdefault("_seen_handles", set())
+            for pid, i in im["v"]:
+                if i in known:
+                    f.add("iter_yields_cached_handle")
+                known.add(i)
+            if len(im["v"]) < len(set(sp.get("listed_pids", []))):
+                f.add("iter_skips_evicted_pid")
+        if k not in KERNEL_OPS and k != "process_iter" and "i" in o and o["i"] in result.get("_seen_handles", ()):
+            f.add("call_on_iter_handle")
+            if k == "is_running" and "bool" in sp:
+                f.add("iter_handle_running_true" if sp["bool"] else "iter_handle_running_false")
+        if k == "status" and im.get("kind") == "status":
+            f.add("status:" + im["v"] + ("" if sp.get("listed") else " (incarnation gone)"))
     ip = result["pairs"][0]
     if len(ip["hash"]) >= 2:
         f.add("pairs")
     return f
 
 
-NONTRIVIAL = {"call_recycled_or_gone", "running_false", "clock_step", "eq_false", "eq_true", "value_error"}
+NONTRIVIAL = {"call_recycled_or_gone", "running_false", "clock_step", "eq_false", "eq_true", "value_error",
+              "iter_skips_evicted_pid", "iter_handle_running_false", "iter_yields_cached_handle"}
 
 
 # ------------------------------------------------------------------------------ correspondence
@@ -1111,13 +1343,31 @@ def witness_corpus(clk):
         {"op": "spawn", "pid": 7}, {"op": "new", "pid": 7}, {"op": "reap", "pid": 7},
         {"op": "tick", "n": clk - 1}, {"op": "spawn", "pid": 7}, {"op": "setbtime", "b": 999},
         {"op": "boot_time"}, {"op": "signal", "i": 0, "m": "kill", "sig": 0}]}
-    return [l1, l2, l2b]
+    # seeded C02-1: stale handle 0 on PID 5 (bystander 7), PID recycled, process_iter() hands out handle 1 on the
+    # new owner (and 2 on the bystander), is_running(0) flags the reuse, the next sweep evicts the cache entry
+    # of PID 5 — handle 1, whose process is alive — and skips the PID, the sweep after it builds handle 3
+    it = {"btime": 1000, "family": "corpus:iter-evicts-live-handle", "hyp": True, "ops": [
+        {"op": "spawn", "pid": 7}, {"op": "spawn", "pid": 5}, {"op": "new", "pid": 5}, {"op": "is_running", "i": 0},
+        {"op": "reap", "pid": 5}, {"op": "spawn", "pid": 5}, {"op": "process_iter"},
+        {"op": "is_running", "i": 1}, {"op": "eq", "i": 0, "j": 1}, {"op": "is_running", "i": 0},
+        {"op": "process_iter"}, {"op": "is_running", "i": 1}, {"op": "process_iter"},
+        {"op": "new", "pid": 5}, {"op": "is_running", "i": 4}, {"op": "eq", "i": 1, "j": 4}, {"op": "eq", "i": 1, "j": 3},
+        {"op": "hash", "i": 1}, {"op": "is_running", "i": 1}, {"op": "is_running", "i": 3},
+        {"op": "status", "i": 1}, {"op": "status", "i": 0},
+        {"op": "signal", "i": 1, "m": "terminate", "sig": 0}, {"op": "is_running", "i": 2}]}
+    # process_iter() keeps yielding the cached handle of a recycled PID until somebody asks is_running()
+    it2 = {"btime": 1000, "family": "corpus:iter-stale-cache", "hyp": True, "ops": [
+        {"op": "spawn", "pid": 7}, {"op": "process_iter"}, {"op": "reap", "pid": 7}, {"op": "spawn", "pid": 7},
+        {"op": "process_iter"}, {"op": "status", "i": 0}, {"op": "signal", "i": 0, "m": "kill", "sig": 0},
+        {"op": "status", "i": 0}, {"op": "process_iter"}, {"op": "process_iter"}, {"op": "enter", "i": 1},
+        {"op": "signal", "i": 1, "m": "terminate", "sig": 0}, {"op": "is_running", "i": 0}, {"op": "is_running", "i": 1}]}
+    return [l1, l2, l2b, it, it2]
 
 
 def correspond_for(ctx, res, prop, driver_file, n_quick, n_thorough):
     impl = Impl(ctx)
     try:
-        res.rule = ("histories of simulated kernel events and psutil calls from 10 clause-directed families "
+        res.rule = ("histories of simulated kernel events and psutil calls from 13 clause-directed families "
                     "(PRNG from VERIF_SEED) + the lead witnesses + an exhaustive sweep of short histories on one PID; "
                     "non-trivial = the history contains a signal/setter through an object whose incarnation lost "
                     "its PID, an is_running() that must be False, a clock step, a == between objects, or a rejected argument; "
@@ -1131,6 +1381,7 @@ def correspond_for(ctx, res, prop, driver_file, n_quick, n_thorough):
         hists.extend(exhaustive_histories(maxlen))
         hists.extend(exhaustive_two_pids(maxlen))
         hists.extend(exhaustive_oneshot(4 if ctx.tier == "quick" else 5))
+        hists.extend(exhaustive_iter(4 if ctx.tier == "quick" else 5))
         total_lines = 0
         CH = 3000
         sampled = 0
@@ -1152,6 +1403,10 @@ def correspond_for(ctx, res, prop, driver_file, n_quick, n_thorough):
                     sample = {"family": fam, "btime": h["btime"], "ops": h["ops"],
                               "impl": [[x[1], x[2]] for x in r["rows"]]}
                 res.case((h["btime"], h["ops"]), nontrivial=bool(feats & NONTRIVIAL), sample=sample)
+                if prop == "C02":
+                    nreg = sum(1 for x in r["rows"] if in_str_region(x))
+                    if nreg:
+                        res.known_seen[FINDING_STR] = res.known_seen.get(FINDING_STR, 0) + nreg
                 drift = []
                 pr = first_problem(r, prop if h.get("hyp", True) else "none", drift)
                 if drift:
@@ -1166,8 +1421,10 @@ def correspond_for(ctx, res, prop, driver_file, n_quick, n_thorough):
                           "reap 5, Process(5), Process(7), terminate(0), is_running(1), ==(0,1)} on two PIDs (beyond length 3 "
                           "only those in which every call names an object that exists at that point — other calls never "
                           "reach psutil); all histories spawn·Process·w, |w| <= %d, over {enter oneshot(0), leave(0), reap, spawn, kill(0), "
-                          "nice(0), ppid(0), is_running(0)} containing an enter; the random families are samples"
-                          % (len(hists) - n_rand, maxlen, maxlen, 4 if ctx.tier == "quick" else 5))
+                          "nice(0), ppid(0), is_running(0)} containing an enter; all well-indexed histories spawn·Process·reap·spawn·w, "
+                          "|w| <= %d, over {process_iter(), is_running(0), is_running(1), reap, spawn, kill(1), ==(0,1)} containing a "
+                          "process_iter(); the random families are samples"
+                          % (len(hists) - n_rand, maxlen, maxlen, 4 if ctx.tier == "quick" else 5, 4 if ctx.tier == "quick" else 5))
         res.extra["driver_lines"] = total_lines
         res.extra["clock_ticks"] = impl.clk
     finally:
